@@ -239,6 +239,11 @@ def run(tier, seed):
             raise vlib.ToolError("MC_TwoRun: 'all registers agree' holds without the taint condition (model vacuous?)")
         mt = vlib.tlc_mc("MC_Taint", "MC_Taint.cfg", wd, workers=8, constants={"MaxSteps": "3" if q else "4"}, timeout=3000, coverage=False)
         vlib.require_mc_ok(mc, "MC_Taint")
+        # ... and for ANY instruction set that respects its summaries the rule is sound: TLAPS proof (assumptions Sem / Frame / Refused,
+        # of which MC_Taint's machine is a model - checked by TLC as ASSUMEs of MC_Taint)
+        nobl = vlib.tlaps("TaintSound", wd)
+        rep.cov["taint_rule_proof"] = {"tool": "tlapm (TLAPS)", "module": "TaintSound.tla", "theorems": ["SameOutcome", "Noninterference"],
+                                       "obligations": nobl, "discharged": nobl}
         tp = taint_phase(rep, 1500 if q else 20000, 12, seed + 300, wd, 8 if q else 14)
         # one-instruction programs: every form a few times with exactly its read set written
         for nn, ll, sd in ((2500, 1, 302),) if q else ((40000, 1, 302), (3000, 30, 301)):
